@@ -70,6 +70,42 @@ fn push_canonical_header_value(ans: &mut String, value: &str) {
     }
 }
 
+/// appends the canonical header lines: a header name that occurs several times yields one line with its values
+/// joined by commas (in the order they were sent)
+fn push_canonical_headers(ans: &mut String, signed_headers: &OrderedHeaders<'_>) {
+    let mut prev: Option<&str> = None;
+    for &(name, value) in signed_headers.as_ref() {
+        if is_skipped_header(name) {
+            continue;
+        }
+        if prev == Some(name) {
+            ans.pop(); // the line feed of the previous value
+            ans.push(',');
+        } else {
+            ans.push_str(name);
+            ans.push(':');
+        }
+        push_canonical_header_value(ans, value);
+        ans.push('\n');
+        prev = Some(name);
+    }
+}
+
+/// appends the list of signed header names: every name once
+fn push_signed_header_names(ans: &mut String, signed_headers: &OrderedHeaders<'_>) {
+    let mut prev: Option<&str> = None;
+    for &(name, _) in signed_headers.as_ref() {
+        if is_skipped_header(name) || prev == Some(name) {
+            continue;
+        }
+        if prev.is_some() {
+            ans.push(';');
+        }
+        ans.push_str(name);
+        prev = Some(name);
+    }
+}
+
 /// is skipped header
 fn is_skipped_header(header: &str) -> bool {
     header == "authorization"
@@ -155,32 +191,13 @@ pub fn create_canonical_request(
 
         // FIXME: check HOST, Content-Type, x-amz-security-token, x-amz-content-sha256
 
-        for &(name, value) in signed_headers.as_ref() {
-            if is_skipped_header(name) {
-                continue;
-            }
-            ans.push_str(name);
-            ans.push(':');
-            push_canonical_header_value(&mut ans, value);
-            ans.push('\n');
-        }
+        push_canonical_headers(&mut ans, signed_headers);
         ans.push('\n');
     }
 
     {
         // <SignedHeaders>\n
-        let mut first_flag = true;
-        for &(name, _) in signed_headers.as_ref() {
-            if is_skipped_header(name) {
-                continue;
-            }
-            if first_flag {
-                first_flag = false;
-            } else {
-                ans.push(';');
-            }
-            ans.push_str(name);
-        }
+        push_signed_header_names(&mut ans, signed_headers);
 
         ans.push('\n');
     }
@@ -367,31 +384,12 @@ pub fn create_presigned_canonical_request(
     {
         // <CanonicalHeaders>\n
 
-        for &(name, value) in signed_headers.as_ref() {
-            if is_skipped_header(name) {
-                continue;
-            }
-            ans.push_str(name);
-            ans.push(':');
-            push_canonical_header_value(&mut ans, value);
-            ans.push('\n');
-        }
+        push_canonical_headers(&mut ans, signed_headers);
         ans.push('\n');
     }
     {
         // <SignedHeaders>\n
-        let mut first_flag = true;
-        for &(name, _) in signed_headers.as_ref() {
-            if is_skipped_header(name) {
-                continue;
-            }
-            if first_flag {
-                first_flag = false;
-            } else {
-                ans.push(';');
-            }
-            ans.push_str(name);
-        }
+        push_signed_header_names(&mut ans, signed_headers);
 
         ans.push('\n');
     }
